@@ -1,37 +1,238 @@
 import ZipVerif.Basic.Bytes
 /-
-CRC-32 (IEEE 802.3, reflected polynomial 0xEDB88320) defined from the polynomial, bit by bit.
-Interface shared by every model file: `update`, `updateBytes`, `crc32`.
+CRC-32 (ISO 3309 / ITU-T V.42, the checksum APPNOTE 4.4.7 prescribes), written from the
+polynomial.  Nothing here is taken from the crate: the 256-entry table is *computed* from the
+reflected generator polynomial 0xEDB88320 by eight shift/xor steps per entry.
+
+* `step`           one bit of the reflected division (shift right, xor the polynomial if a 1 fell out)
+* `updateBitwise`  feed one message byte, bit by bit — the definition
+* `tableEntry`     remainder of one byte value (what a CRC table stores at that index)
+* `updateByte`     table form `(c >>> 8) ^^^ T[(c ^^^ b) & 0xff]`, proved equal to `updateBitwise`
+* `crc32`          whole message: initial value 0xFFFFFFFF, final complement
+* `table`/`updateFast`/`crc32Fast`  precomputed `Array UInt32` for the compiled driver (`@[csimp]`:
+  compiled code that calls `updateByte` runs the array version; the kernel sees the definition).
+
+Core only (this file is linked into the driver).
 -/
 
 namespace ZipVerif.Spec.Crc32
 
+/-- The reflected CRC-32 generator polynomial (x^32 + x^26 + … + 1, bit-reversed). -/
 def poly : UInt32 := 0xEDB88320
 
-/-- One shift of the reflected LFSR. -/
-def step (r : UInt32) : UInt32 :=
-  if r &&& 1 == 1 then (r >>> 1) ^^^ poly else r >>> 1
+/-- One step of the reflected bit-serial division. -/
+def step (c : UInt32) : UInt32 :=
+  if c &&& 1 = 1 then (c >>> 1) ^^^ poly else c >>> 1
 
-def step8 (r : UInt32) : UInt32 := step (step (step (step (step (step (step (step r)))))))
+/-- Eight steps: one message byte's worth of division. -/
+def step8 (c : UInt32) : UInt32 := step (step (step (step (step (step (step (step c)))))))
 
-/-- Table entry for index `i` (what zlib's `crc_table[i]` holds). -/
+/-- Feed one byte, bit by bit (the definition of the byte update). -/
+def updateBitwise (c : UInt32) (b : UInt8) : UInt32 := step8 (c ^^^ b.toUInt32)
+
+/-- The value a CRC-32 table holds at index `i`. -/
 def tableEntry (i : UInt8) : UInt32 := step8 i.toUInt32
 
-/-- Feed one byte into the raw register. -/
-def update (crc : UInt32) (b : UInt8) : UInt32 :=
-  tableEntry ((crc.toUInt8) ^^^ b) ^^^ (crc >>> 8)
+/-- Table form of the byte update. -/
+def updateByte (c : UInt32) (b : UInt8) : UInt32 :=
+  (c >>> 8) ^^^ tableEntry (c.toUInt8 ^^^ b)
 
-def updateBytes (crc : UInt32) (bs : Bytes) : UInt32 := bs.foldl update crc
+/-- interface name used by the layer models -/
+abbrev update := updateByte
 
+/-- The register after feeding a list of bytes (no initial / final conditioning). -/
+def updateBytes (c : UInt32) (bs : Bytes) : UInt32 := bs.foldl updateByte c
+
+/-- CRC-32 of a message. -/
 def crc32 (bs : Bytes) : UInt32 := updateBytes 0xFFFFFFFF bs ^^^ 0xFFFFFFFF
 
-theorem updateBytes_append (crc : UInt32) (a b : Bytes) :
-    updateBytes crc (a ++ b) = updateBytes (updateBytes crc a) b := by
-  simp [updateBytes, List.foldl_append]
+/-! ### Linearity of the division step, and table form = bitwise form -/
 
-@[simp] theorem updateBytes_nil (crc : UInt32) : updateBytes crc [] = crc := rfl
+theorem and_one_cases (c : UInt32) : c &&& 1 = 0 ∨ c &&& 1 = 1 := by
+  have h : (c &&& 1).toNat = c.toNat % 2 := by
+    rw [UInt32.toNat_and]
+    exact Nat.and_two_pow_sub_one_eq_mod c.toNat 1
+  rcases Nat.mod_two_eq_zero_or_one c.toNat with h0 | h1
+  · left; apply UInt32.toNat_inj.mp; rw [h, h0]; rfl
+  · right; apply UInt32.toNat_inj.mp; rw [h, h1]; rfl
 
-@[simp] theorem updateBytes_cons (crc : UInt32) (b : UInt8) (bs : Bytes) :
-    updateBytes crc (b :: bs) = updateBytes (update crc b) bs := rfl
+theorem step_zero : step 0 = 0 := by decide
+
+theorem and_xor_right (a b c : UInt32) : (a ^^^ b) &&& c = (a &&& c) ^^^ (b &&& c) := by
+  apply UInt32.toNat_inj.mp
+  simp only [UInt32.toNat_and, UInt32.toNat_xor]
+  exact Nat.and_xor_distrib_right
+
+/-- `step` is additive over xor (the division is GF(2)-linear). -/
+theorem step_xor (a b : UInt32) : step (a ^^^ b) = step a ^^^ step b := by
+  have hd : (a ^^^ b) &&& 1 = (a &&& 1) ^^^ (b &&& 1) := and_xor_right a b 1
+  have hs : (a ^^^ b) >>> 1 = (a >>> 1) ^^^ (b >>> 1) := UInt32.shiftRight_xor
+  have n : ((0 : UInt32) = 1) = False := by decide
+  have e00 : (0 : UInt32) ^^^ 0 = 0 := by decide
+  have e01 : (0 : UInt32) ^^^ 1 = 1 := by decide
+  have e10 : (1 : UInt32) ^^^ 0 = 1 := by decide
+  have e11 : (1 : UInt32) ^^^ 1 = 0 := by decide
+  unfold step
+  rw [hd, hs]
+  rcases and_one_cases a with ha | ha <;> rcases and_one_cases b with hb | hb <;> rw [ha, hb]
+  · simp only [e00, n, if_false]
+  · simp only [e01, n, if_false, if_true]
+    ac_rfl
+  · simp only [e10, n, if_false, if_true]
+    ac_rfl
+  · simp only [e11, n, if_false, if_true]
+    rw [show (a >>> 1 ^^^ poly) ^^^ (b >>> 1 ^^^ poly) = (a >>> 1 ^^^ b >>> 1) ^^^ (poly ^^^ poly) by ac_rfl,
+      UInt32.xor_self, UInt32.xor_zero]
+
+theorem step8_xor (a b : UInt32) : step8 (a ^^^ b) = step8 a ^^^ step8 b := by
+  simp only [step8, step_xor]
+
+/-- On an even register value the step is a plain shift. -/
+theorem step_even (c : UInt32) (h : c.toNat % 2 = 0) : (step c).toNat = c.toNat / 2 := by
+  have h1 : c &&& 1 = 0 := by
+    apply UInt32.toNat_inj.mp
+    rw [UInt32.toNat_and]
+    exact (Nat.and_two_pow_sub_one_eq_mod c.toNat 1).trans h
+  have n : ¬ ((0 : UInt32) = 1) := by decide
+  unfold step; rw [h1, if_neg n, UInt32.toNat_shiftRight]
+  show c.toNat >>> 1 = _
+  rw [Nat.shiftRight_eq_div_pow]
+
+/-- Eight steps on a value whose low byte is zero just shift it out. -/
+theorem step8_low_zero (c : UInt32) (h : c.toNat % 256 = 0) : step8 c = c >>> 8 := by
+  have n1 := step_even c (by omega)
+  have n2 := step_even (step c) (by omega)
+  have n3 := step_even (step (step c)) (by omega)
+  have n4 := step_even (step (step (step c))) (by omega)
+  have n5 := step_even (step (step (step (step c)))) (by omega)
+  have n6 := step_even (step (step (step (step (step c))))) (by omega)
+  have n7 := step_even (step (step (step (step (step (step c)))))) (by omega)
+  have n8 := step_even (step (step (step (step (step (step (step c))))))) (by omega)
+  apply UInt32.toNat_inj.mp
+  unfold step8
+  rw [UInt32.toNat_shiftRight]
+  show _ = c.toNat >>> 8
+  rw [Nat.shiftRight_eq_div_pow]
+  omega
+
+theorem split_low_byte (x : UInt32) : x = (x &&& 0xFFFFFF00) ^^^ (x &&& 0xFF) := by
+  apply UInt32.toNat_inj.mp
+  simp only [UInt32.toNat_and, UInt32.toNat_xor]
+  rw [← Nat.and_xor_distrib_left]
+  have e : (0xFFFFFF00 : UInt32).toNat ^^^ (0xFF : UInt32).toNat = 2 ^ 32 - 1 := by decide
+  rw [e, Nat.and_two_pow_sub_one_eq_mod]
+  exact (Nat.mod_eq_of_lt x.toNat_lt).symm
+
+theorem and_ff_eq (x : UInt32) : x &&& 0xFF = x.toUInt8.toUInt32 := by
+  apply UInt32.toNat_inj.mp
+  rw [UInt32.toNat_and, UInt8.toNat_toUInt32, UInt32.toNat_toUInt8]
+  exact Nat.and_two_pow_sub_one_eq_mod x.toNat 8
+
+theorem hi_low_zero (x : UInt32) : (x &&& 0xFFFFFF00).toNat % 256 = 0 := by
+  rw [UInt32.toNat_and, ← Nat.and_two_pow_sub_one_eq_mod _ 8, Nat.and_assoc]
+  have e : (0xFFFFFF00 : UInt32).toNat &&& (2 ^ 8 - 1) = 0 := by decide
+  rw [e, Nat.and_zero]
+
+theorem hi_shift (x : UInt32) : (x &&& 0xFFFFFF00) >>> 8 = x >>> 8 := by
+  apply UInt32.toNat_inj.mp
+  rw [UInt32.toNat_shiftRight, UInt32.toNat_shiftRight, UInt32.toNat_and]
+  show (x.toNat &&& _) >>> 8 = x.toNat >>> 8
+  have e : (0xFFFFFF00 : UInt32).toNat = (2 ^ 24 - 1) <<< 8 := by decide
+  rw [e, Nat.shiftRight_and_distrib, Nat.shiftLeft_shiftRight, Nat.and_two_pow_sub_one_eq_mod]
+  apply Nat.mod_eq_of_lt
+  rw [Nat.shiftRight_eq_div_pow]
+  have := x.toNat_lt
+  omega
+
+/-- **Table form = bitwise form** of the byte update. -/
+theorem updateByte_eq_bitwise (c : UInt32) (b : UInt8) : updateByte c b = updateBitwise c b := by
+  unfold updateByte updateBitwise tableEntry
+  have hx := split_low_byte (c ^^^ b.toUInt32)
+  have h8 : (c ^^^ b.toUInt32).toUInt8 = c.toUInt8 ^^^ b := by
+    rw [UInt32.toUInt8_xor, UInt8.toUInt8_toUInt32]
+  have hb : b.toUInt32 >>> 8 = 0 := by
+    apply UInt32.toNat_inj.mp
+    rw [UInt32.toNat_shiftRight, UInt8.toNat_toUInt32]
+    show b.toNat >>> 8 = 0
+    rw [Nat.shiftRight_eq_div_pow]
+    have := b.toNat_lt
+    show b.toNat / 256 = 0
+    omega
+  conv => rhs; rw [hx]
+  rw [step8_xor, step8_low_zero _ (hi_low_zero _), hi_shift, and_ff_eq, h8, UInt32.shiftRight_xor, hb,
+    UInt32.xor_zero]
+
+theorem updateBytes_nil (c : UInt32) : updateBytes c [] = c := rfl
+
+theorem updateBytes_cons (c : UInt32) (b : UInt8) (bs : Bytes) :
+    updateBytes c (b :: bs) = updateBytes (updateByte c b) bs := rfl
+
+theorem updateBytes_append (c : UInt32) (xs ys : Bytes) :
+    updateBytes c (xs ++ ys) = updateBytes (updateBytes c xs) ys := List.foldl_append
+
+/-! ### The same division on natural numbers (fast to evaluate in the kernel: used to check
+literal tables against the polynomial with `decide +kernel`) -/
+
+def stepNat (n : Nat) : Nat := if n % 2 = 1 then (n / 2) ^^^ 0xEDB88320 else n / 2
+
+def tableEntryNat (i : Nat) : Nat :=
+  stepNat (stepNat (stepNat (stepNat (stepNat (stepNat (stepNat (stepNat i)))))))
+
+theorem step_toNat (c : UInt32) : (step c).toNat = stepNat c.toNat := by
+  have hm : (c &&& 1).toNat = c.toNat % 2 := by
+    rw [UInt32.toNat_and]
+    exact Nat.and_two_pow_sub_one_eq_mod c.toNat 1
+  have hs : (c >>> 1).toNat = c.toNat / 2 := by
+    rw [UInt32.toNat_shiftRight]
+    show c.toNat >>> 1 = _
+    rw [Nat.shiftRight_eq_div_pow]
+  have n : ¬ ((0 : UInt32) = 1) := by decide
+  unfold step stepNat
+  rcases and_one_cases c with h | h
+  · have : c.toNat % 2 = 0 := by rw [← hm, h]; rfl
+    rw [h, if_neg n, if_neg (by omega), hs]
+  · have : c.toNat % 2 = 1 := by rw [← hm, h]; rfl
+    rw [h, if_pos rfl, if_pos this, UInt32.toNat_xor, hs]
+    rfl
+
+theorem tableEntry_toNat (i : UInt8) : (tableEntry i).toNat = tableEntryNat i.toNat := by
+  unfold tableEntry step8 tableEntryNat
+  simp only [step_toNat, UInt8.toNat_toUInt32]
+
+/-! ### Precomputed table for compiled code -/
+
+/-- The 256 table entries, computed once (a closed constant: initialised at program start). -/
+def table : Array UInt32 := Array.ofFn (n := 256) fun i => tableEntry (UInt8.ofNat i.val)
+
+theorem table_size : table.size = 256 := Array.size_ofFn
+
+theorem table_get (i : UInt8) : table[i.toNat]'(by rw [table_size]; exact i.toNat_lt) = tableEntry i := by
+  unfold table
+  rw [Array.getElem_ofFn]
+  show tableEntry (UInt8.ofNat i.toNat) = tableEntry i
+  rw [UInt8.ofNat_toNat]
+
+theorem table_get? (i : UInt8) : table[i.toNat]? = some (tableEntry i) := by
+  rw [Array.getElem?_eq_getElem (by rw [table_size]; exact i.toNat_lt), table_get]
+
+/-- Array-backed byte update (what the compiled driver executes). -/
+def updateFast (c : UInt32) (b : UInt8) : UInt32 :=
+  (c >>> 8) ^^^ table[(c.toUInt8 ^^^ b).toNat]'(by rw [table_size]; exact (c.toUInt8 ^^^ b).toNat_lt)
+
+@[csimp] theorem updateByte_eq_fast : @updateByte = @updateFast := by
+  funext c b
+  unfold updateByte updateFast
+  rw [table_get]
+
+/-! ### Check values (ISO 3309 / ITU-T V.42 test vectors) -/
+
+example : tableEntry 0 = 0 := by decide
+example : tableEntry 1 = 0x77073096 := by decide
+example : tableEntry 128 = poly := by decide
+example : tableEntry 255 = 0x2D02EF8D := by decide
+example : crc32 [] = 0 := by decide
+/-- "123456789" ↦ 0xCBF43926, the standard check value. -/
+example : crc32 [0x31, 0x32, 0x33, 0x34, 0x35, 0x36, 0x37, 0x38, 0x39] = 0xCBF43926 := by decide
+example : crc32 [0x61] = 0xE8B7BE43 := by decide
 
 end ZipVerif.Spec.Crc32
